@@ -285,6 +285,10 @@ func init() {
 		Rule: "history in which a soft group parameter was delivered non-empty, or next to a field of the same object whose provider feeds the group",
 		Gen: genGeneric("C11", func(g *genCtx) {
 			noFaults(g)
+			if g.r.Intn(4) == 0 {
+				// feeders that failed (and were or were not retried) contribute nothing
+				g.ft.FaultRate, g.ft.PRetry = 0.15, 0.4
+			}
 			g.ft.Groups = []string{"g1", "g2"}[:g.r.Range(1, 2)]
 			g.ft.Objects, g.ft.Soft = true, true
 			g.ft.GroupDecs = false
